@@ -362,6 +362,9 @@ class _Expr(SymEval):
                 if not all(isinstance(a, str) for a in args):
                     raise NotSymbolic(f"{r[1]} on non-constant arguments")
                 return _prog_call(_PURE_EXTERNALS[r[1]], *args)
+            if r is not None and r[0] == "external" and r[1] in ("weakref.ref", "weakref.proxy") and len(n.args) == 1:
+                target = self.eval(n.args[0])
+                return ("<function>", lambda a, k, target=target: target) if r[1] == "weakref.ref" else target
             if r is not None and r[0] == "external" and r[1] in _NO_VALUE_EFFECT:
                 for a in n.args:
                     self.eval(a)
@@ -696,6 +699,15 @@ class _Expr(SymEval):
                 return False
             if f.id in ("int", "float"):
                 return f.id
+        if isinstance(f, (ast.Subscript, ast.Call)):
+            fv = self.eval(f)
+            if isinstance(fv, tuple) and len(fv) == 2 and fv[0] == "<function>":
+                args = [self.eval(a) for a in n.args]
+                kw = {k.arg: self.eval(k.value) for k in n.keywords if k.arg is not None}
+                if callable(fv[1]):
+                    return fv[1](args, kw)
+                return self.owner.run_free(fv[1], args, kw)
+            raise NotSymbolic(f"call of the value of `{ast.unparse(f)[:40]}`")
         return super().e_Call(n)
 
     def e_Name(self, n):
